@@ -16,6 +16,9 @@ pub struct InternedStr<'p>(pub u8, pub PhantomData<&'p ()>);
 pub struct Gc<T>(pub *const T);
 impl<T> Clone for Gc<T> { fn clone(&self) -> Self { Gc(self.0) } }
 impl<T> Gc<T> { pub fn new(v: T) -> Self { Gc(Box::into_raw(Box::new(v))) } pub fn view(&self) -> GcView<T> { GcView(self.0) } }
+impl<T> PartialEq for Gc<T> { fn eq(&self, o: &Self) -> bool { std::ptr::eq(self.0, o.0) } }
+impl<T> std::fmt::Debug for Gc<T> { fn fmt(&self, f: &mut std::fmt::Formatter<'_>) -> std::fmt::Result { Ok(()) } }
+impl<T> From<&GcView<T>> for Gc<T> { fn from(v: &GcView<T>) -> Self { Gc(v.0) } }
 pub struct GcView<T>(pub *const T);
 impl<T> Clone for GcView<T> { fn clone(&self) -> Self { GcView(self.0) } }
 impl<T> std::ops::Deref for GcView<T> { type Target = T; fn deref(&self) -> &T { unsafe { &*self.0 } } }
@@ -23,7 +26,7 @@ pub struct FuncData<'p>(pub u8, pub PhantomData<&'p ()>);
 pub struct ThunkData<'p> { pub src: u8, pub idx: usize, pub _p: PhantomData<&'p ()> }
 pub type ArrayData<'p> = Box<[Gc<ThunkData<'p>>]>;     // as in the real crate
 #[derive(Clone, PartialEq, Debug)]
-pub enum ValueData<'p> { Number(f64), Bool(bool), _P(PhantomData<&'p ()>) }
+pub enum ValueData<'p> { Number(f64), Bool(bool), Array(Gc<ArrayData<'p>>), Function(Gc<FuncData<'p>>), _P(PhantomData<&'p ()>) }
 pub struct EvalError;
 type EvalResult<T> = Result<T, Box<EvalError>>;
 type Keys<'p> = Rc<Vec<OnceCell<ValueData<'p>>>>;
@@ -34,6 +37,8 @@ pub enum State<'a, 'p> {
     ArrayToValue,
     DoThunk(GcView<ThunkData<'p>>),
     CallKey(GcView<ThunkData<'p>>, PhantomData<&'a ()>),
+    StdSortFinish { orig_array: GcView<ArrayData<'p>>, sorted: Sorted },
+    StdSortSetKey { keys: Keys<'p>, index: usize },
     StdSortCompare { keys: Keys<'p>, lhs: usize, rhs: usize },
     StdSortSlice { keys: Keys<'p>, sorted: Sorted, range: std::ops::Range<usize> },
     StdSortQuickSort1 { keys: Keys<'p>, sorted: Sorted, range: std::ops::Range<usize> },
@@ -58,6 +63,9 @@ pub struct Evaluator<'a, 'p> {
     array_stack: Vec<Vec<Gc<ThunkData<'p>>>>,
 }
 impl<'a, 'p> Evaluator<'a, 'p> {
+    // shims of the argument-type checks: the right type is unwrapped, anything else is the type error
+    fn expect_std_func_arg_array(&self, v: ValueData<'p>, _f: &str, _i: usize) -> EvalResult<GcView<ArrayData<'p>>> { match v { ValueData::Array(a) => Ok(a.view()), _ => Err(Box::new(EvalError)) } }
+    fn expect_std_func_arg_func(&self, v: ValueData<'p>, _f: &str, _i: usize) -> EvalResult<GcView<FuncData<'p>>> { match v { ValueData::Function(f) => Ok(f.view()), _ => Err(Box::new(EvalError)) } }
     // shim: the real one binds the argument and schedules the call of the key function on it
     fn check_thunk_args_and_execute_call(&mut self, func: &FuncData<'p>, positional_args: &[GcView<ThunkData<'p>>], named_args: &[(InternedStr<'p>, GcView<ThunkData<'p>>)], call_span: Option<SpanId>) -> EvalResult<()> {
         self.state_stack.push(State::CallKey(positional_args[0].clone(), PhantomData)); Ok(())
@@ -65,7 +73,7 @@ impl<'a, 'p> Evaluator<'a, 'p> {
 }
 
 // ---- extracted, verbatim -------------------------------------------------------------------
-//@extract file=rsjsonnet-lang/src/program/eval/stdlib.rs impl=Evaluator methods=do_std_sort_compare,do_std_sort_slice,do_std_sort_quick_sort_1,do_std_sort_quick_sort_2,do_std_sort_merge_prepare,do_std_sort_merge_pre_compare,do_std_sort_merge_post_compare,do_std_set_inter_aux,do_std_set_union_aux,do_std_set_diff_aux,do_std_set_member_slice,do_std_set_member_check,do_std_min_array_compare_item,do_std_min_array_check_item,do_std_max_array_compare_item,do_std_max_array_check_item
+//@extract file=rsjsonnet-lang/src/program/eval/stdlib.rs impl=Evaluator methods=do_std_sort,do_std_sort_compare,do_std_sort_slice,do_std_sort_quick_sort_1,do_std_sort_quick_sort_2,do_std_sort_merge_prepare,do_std_sort_merge_pre_compare,do_std_sort_merge_post_compare,do_std_set_inter_aux,do_std_set_union_aux,do_std_set_diff_aux,do_std_set_member_slice,do_std_set_member_check,do_std_min_array_compare_item,do_std_min_array_check_item,do_std_max_array_compare_item,do_std_max_array_check_item
 
 #[cfg(kani)]
 mod vharness {
@@ -108,6 +116,50 @@ mod vharness {
         }
         core::mem::forget(e);
     }
+
+    fn sort_entry(n: usize) {
+        let a = arr(1, n);
+        let mut e = ev();
+        e.value_stack.push(ValueData::Array(a.clone()));
+        e.value_stack.push(ValueData::Function(Gc::new(FuncData(0, PhantomData))));
+        let r = e.do_std_sort();
+        assert!(r.is_ok(), "C17,C01:sortset:sort-entry-succeeds");
+        if n <= 1 {
+            // nothing to order: the array is returned as it is and NOTHING is scheduled - neither the element
+            // nor keyF applied to it is evaluated (call-by-need, C04)
+            assert!(e.state_stack.is_empty(), "C04,C17:sortset:sorting-fewer-than-two-elements-evaluates-nothing");
+            assert!(e.value_stack.len() == 1 && matches!(&e.value_stack[0], ValueData::Array(g) if std::ptr::eq(g.0, a.0)), "C04,C17:sortset:sorting-fewer-than-two-elements-returns-the-array-itself");
+        } else {
+            assert!(e.value_stack.is_empty() && e.state_stack.len() == 2 + 2 * n, "C17:sortset:sort-schedules-one-key-per-element-then-the-sort-then-the-finish");
+            assert!(matches!(&e.state_stack[0], State::StdSortFinish { orig_array, sorted } if std::ptr::eq(orig_array.0, a.0) && sorted.len() == n), "C17:sortset:finish-builds-the-result-from-the-original-array");
+            assert!(matches!(&e.state_stack[1], State::StdSortSlice { range, sorted, keys } if range.start == 0 && range.end == n && sorted.len() == n && keys.len() == n), "C17:sortset:whole-range-is-sorted");
+            let mut i = 0;
+            while i < n {
+                // execution order = pop order: element 0's key first
+                let at = 2 + 2 * (n - 1 - i);
+                assert!(matches!(&e.state_stack[at], State::StdSortSetKey { index, .. } if *index == i) && is_key_call(&e.state_stack[at + 1], 1, i), "C17:sortset:key-of-element-i-is-computed-and-stored-at-i");
+                i += 1;
+            }
+            if let State::StdSortSlice { sorted, .. } = &e.state_stack[1] { let mut k = 0; while k < n { assert!(sorted[k].get() == k, "C17:sortset:initial-order-is-the-input-order"); k += 1; } }
+        }
+        core::mem::forget(e);
+    }
+    //@harness props=C17,C04,C01 quickfor=C17,C04 strength=bounded bound="ONE instance: array of 0 element(s) (the family covers 0..3)" clause="std.sort entry: an array of fewer than two elements is returned as it is and nothing is evaluated (neither elements nor keyF); otherwise the key of every element is requested in input order and stored at its index, then the whole range is sorted starting from the input order (so equal keys keep input order), then the result is built from the original array" timeout=300 replay=sort_entry
+    #[kani::proof]
+    #[kani::unwind(6)]
+    fn sort_entry_n0() { sort_entry(0); }
+    //@harness props=C17,C04,C01 quickfor=C17,C04 strength=bounded bound="ONE instance: array of 1 element(s) (the family covers 0..3)" clause="std.sort entry: an array of fewer than two elements is returned as it is and nothing is evaluated (neither elements nor keyF); otherwise the key of every element is requested in input order and stored at its index, then the whole range is sorted starting from the input order (so equal keys keep input order), then the result is built from the original array" timeout=300 replay=sort_entry
+    #[kani::proof]
+    #[kani::unwind(6)]
+    fn sort_entry_n1() { sort_entry(1); }
+    //@harness props=C17,C04,C01 quickfor=C17,C04 strength=bounded bound="ONE instance: array of 2 element(s) (the family covers 0..3)" clause="std.sort entry: an array of fewer than two elements is returned as it is and nothing is evaluated (neither elements nor keyF); otherwise the key of every element is requested in input order and stored at its index, then the whole range is sorted starting from the input order (so equal keys keep input order), then the result is built from the original array" timeout=300 replay=sort_entry
+    #[kani::proof]
+    #[kani::unwind(6)]
+    fn sort_entry_n2() { sort_entry(2); }
+    //@harness props=C17,C04,C01 quickfor=C17,C04 strength=bounded bound="ONE instance: array of 3 element(s) (the family covers 0..3)" clause="std.sort entry: an array of fewer than two elements is returned as it is and nothing is evaluated (neither elements nor keyF); otherwise the key of every element is requested in input order and stored at its index, then the whole range is sorted starting from the input order (so equal keys keep input order), then the result is built from the original array" timeout=300 replay=sort_entry
+    #[kani::proof]
+    #[kani::unwind(6)]
+    fn sort_entry_n3() { sort_entry(3); }
 
     const N: usize = 5;   // bound on a partition / merge window in the bounded harnesses
     //@harness props=C17,C01 strength=bounded bound="window of 2..5 positions inside a 7-element index vector" clause="quick sort step 1: schedules, in execution order, the comparison of every element after the pivot with the pivot (element key vs pivot key), then step 2 on the same range" timeout=900
